@@ -8,6 +8,7 @@ import (
 	"io"
 	"regexp"
 	"strconv"
+	"strings"
 	"sync"
 	"testing"
 	"time"
@@ -195,6 +196,22 @@ func runC17(c *C17Case) (maxBatch int, err error) {
 				return fmt.Errorf("%w: query %d %s (memstore=%v deadline=%q) is not stable when run alone twice: %s", errSetup, i, c.Qs[i].Q.SQL(), c.Qs[i].Mem, c.Qs[i].Deadline, d)
 			}
 		}
+		// a LIMIT without a total order may return any n rows of the unlimited
+		// result, but they must be rows of it (right columns, right values)
+		for i, cq := range c.Qs {
+			if !cq.Q.HasLimit() || conc[i].err != nil || conc[i].res == nil || cq.Deadline == "past" {
+				continue
+			}
+			unl := *cq.Q
+			unl.Limit, unl.Offset = 0, 0
+			full := (&C17Q{Q: &unl, Mem: cq.Mem}).run(db, forceMem)
+			if full.err != nil {
+				continue
+			}
+			if d := subMultiset(conc[i].res, full.res); d != "" {
+				return fmt.Errorf("query [%d] %s (memstore=%v), issued together with %d other queries, returned a row that its unlimited form does not contain: %s", i, cq.Q.SQL(), cq.Mem, len(c.Qs)-1, d)
+			}
+		}
 		for i, cq := range c.Qs {
 			if d := sameOutcome(cq.Q, solo[i], conc[i]); d != "" {
 				others := ""
@@ -268,4 +285,30 @@ func init() {
 		_, err := runC17(&c)
 		return err
 	})
+}
+
+// subMultiset reports a row of part that all does not contain (as a multiset).
+func subMultiset(part, all *h.Result) string {
+	if strings.Join(part.Fields, ",") != strings.Join(all.Fields, ",") {
+		return fmt.Sprintf("field lists differ: %v vs %v", part.Fields, all.Fields)
+	}
+	avail := map[string]int{}
+	canon := func(r h.RefRow) string {
+		vals := make([]string, len(part.Fields))
+		for i, f := range part.Fields {
+			vals[i] = fmt.Sprintf("%.9g", r.Vals[f])
+		}
+		return fmt.Sprintf("%d|%s|%s", r.TS, r.Key, strings.Join(vals, ","))
+	}
+	for _, r := range all.Rows {
+		avail[canon(r)]++
+	}
+	for _, r := range part.Rows {
+		k := canon(r)
+		if avail[k] == 0 {
+			return r.String()
+		}
+		avail[k]--
+	}
+	return ""
 }
